@@ -1,4 +1,5 @@
 \* thorough: client close, server shutdown, read limit; <= 3 frames
+\* measured: 2 659 332 distinct / 7 308 245 generated states, depth 29 (about 7 min with 4 workers)
 CONSTANTS
   FrameAlphabet <- FramesEnd3
   MaxFrames = 3
